@@ -32,18 +32,51 @@ EdgeBits(a, b, in, out) ==
     [] a = "lchuv" /\ b = "luv" -> PolarBits(out, in)
     [] a = "oklab" /\ b = "oklch" -> PolarBits(in, out)
     [] a = "oklch" /\ b = "oklab" -> PolarBits(out, in)
+    [] a = "srgb" /\ b = "hsv" -> HsvBits(in, out)
+    [] a = "hsv" /\ b = "srgb" -> HsvBits(out, in)
+    [] a = "srgb" /\ b = "hsl" -> HslBits(in, out)
+    [] a = "hsl" /\ b = "srgb" -> HslBits(out, in)
+    [] a = "hsv" /\ b = "hwb" -> HwbFromHsvBits(in, out)
+    [] a = "hwb" /\ b = "hsv" -> HwbFromHsvBits(out, in)
+    [] a = "okhsv" /\ b = "okhwb" -> HwbFromHsvBits(in, out)
+    [] a = "okhwb" /\ b = "okhsv" -> HwbFromHsvBits(out, in)
+    [] a = "hsv" /\ b = "hsl" -> HsvHslBits(in, out)
+    [] a = "hsl" /\ b = "hsv" -> HsvHslBits(out, in)
+    [] a = "xyz" /\ b = "linluma" -> LumaFromXyzBits(in, out)
+    [] a = "linluma" /\ b = "xyz" -> XyzFromLumaBits(in, out)
     [] OTHER -> 999
 
-(* thresholds (bits of agreement required); calibration on the pinned tree in DESIGN.md C02 *)
-Threshold(a, b, t) == IF t = "f32" THEN 14 ELSE 30
+(* thresholds: bits of agreement required.  Calibration on the pinned tree (DESIGN.md C02), worst case over
+   lattice, threshold-straddling and random inputs: exact-formula edges 49..55 bits in f64 and 21..25 in f32;
+   edges through palette's hard-coded 7-digit RGB matrices 23..24 (the publication itself is 7 digits);
+   Oklab edges 22..24 (10-digit published matrices, two published M1).  Thresholds leave 4..5 bits (>= 16x). *)
+Published7(a, b) == {a, b} = {"linsrgb", "xyz"}
+OkEdge(a, b) == "oklab" \in {a, b} /\ ({a, b} \cap {"xyz", "linsrgb"}) # {}
+Threshold(a, b, t) ==
+  IF t = "f32" THEN (IF OkEdge(a, b) THEN 16 ELSE 17)
+  ELSE IF Published7(a, b) THEN 19
+  ELSE IF OkEdge(a, b) THEN 18
+  ELSE 44
+
+(* inputs on which the code deliberately deviates from the bare formula (modelled, not judged):
+   xyY with y = 0 and XYZ with X+Y+Z = 0 give zeros; the L*u*v* inverse returns black for L* < 1e-5;
+   the hexcone conversions clamp negative RGB components first *)
+InFormulaDomain(a, b, in) ==
+  CASE a = "yxy" /\ b = "xyz" -> FxLt(FxEps(20), in[2])
+    [] a = "xyz" /\ b = "yxy" -> FxLt(FxEps(20), FxAdd(in[1], FxAdd(in[2], in[3])))
+    [] a = "luv" /\ b = "xyz" -> FxLt(FxEps(10), in[1])
+    [] a = "xyz" /\ b = "luv" -> FxLt(FxEps(30), in[2])
+    [] a = "srgb" /\ b \in {"hsv", "hsl"} -> \A i \in 1..3 : FxLe(FxZero, in[i]) /\ FxLe(in[i], FxOne)
+    [] OTHER -> TRUE
 
 Why(e) ==
   IF e.ev # "walk" \/ Len(e.nodes) # 2 THEN "ok"
   ELSE IF e.panic = 1 THEN "panic"
   ELSE IF e.missing = 1 THEN "ok"
   ELSE IF ~AllFin(e.vals[1]) \/ ~AllFin(e.vals[2]) THEN "ok"      \* finiteness is C07's
+  ELSE IF ~InFormulaDomain(e.nodes[1], e.nodes[2], FxSeq(e.vals[1])) THEN "ok"
   ELSE LET bits == EdgeBits(e.nodes[1], e.nodes[2], FxSeq(e.vals[1]), FxSeq(e.vals[2]))
-       IN IF Calib THEN (IF PrintT(<<"NOTE", e.nodes[1], e.nodes[2], e.t, bits>>) THEN "ok" ELSE "ok")
+       IN IF Calib THEN (IF PrintT(<<"NOTE", e.nodes[1], e.nodes[2], e.t, bits, l>>) THEN "ok" ELSE "ok")
           ELSE IF bits < Threshold(e.nodes[1], e.nodes[2], e.t) THEN "differs-from-published-definition"
           ELSE "ok"
 
